@@ -165,7 +165,8 @@ class Particle(Structure):
             buf = buft.from_buffer_copy(binarydata)
             memmove(byref(self), byref(buf), sizeof(self))
             self.c = 0
-            self.sim = 0
+            self._sim = None  # the ctypes member is called _sim: clear the pointer to the (gone) simulation
+            self.sim = 0      # kept: plain Python attribute that existing code/tests read
             self.ap = 0
             return
 
